@@ -596,14 +596,1038 @@ fn enumerate(t: Tier) -> Box<dyn Iterator<Item = Case>> {
     }))
 }
 
+// ---------------------------------------------------------------------------
+// LARGE-SCALE sub-checks (C14/large-*): many states, many symbols, long observation sequences.
+//
+// The enumeration of all S^T paths is impossible there. Oracles:
+//  * an independent textbook reference in plain f64 / std `ln` (NOT the library's LogProb): Viterbi as
+//    max-sum over std logarithms, forward and backward as scaled sum-product in linear space (Rabiner's
+//    scaling, log-likelihood = sum of the logs of the scaling factors). The reference is cross-validated
+//    against the path enumeration of this module on every case with S^T <= 20000 (sub-checks
+//    `C14/large-crosscheck` and `C14/large-reference-vs-enumeration` run thousands of those per run);
+//  * dyadic models (every probability a power of two): the joint probability of a path is 2^-cost with
+//    an integer cost, so "the returned path is maximal" is decided EXACTLY by an integer shortest-path
+//    computation (no tolerance);
+//  * structured models with an analytic answer: the deterministic cycle (one possible path: Viterbi
+//    path, Viterbi probability and likelihood are known in closed form and forward/backward involve no
+//    approximate exponential at all, so they are compared within rounding).
+//
+// Tolerances in LOG space (linear images underflow for long sequences):
+//  * Viterbi (sums of std logarithms only): max(1e-9 * max(1,|L|), 4 (T+2) eps |L|)   (rounding only)
+//  * forward / backward: one `ln_sum_exp` per column, each within the documented relative error of
+//    the fast exponential (8.9e-6) of the truth, errors of consecutive columns add up in log space:
+//    (T+1) * 1e-5 + the rounding term.  That is the "stated numerical tolerance of the log-space
+//    arithmetic" carried over T columns; for the small cases of C14/random it is below the 1e-3 used there.
+
+pub mod large {
+    use super::*;
+    use crate::oracles::scale::c141516::{ladder, Sm64};
+    use crate::rung_label_c141516 as rung;
+
+    #[derive(Serialize, Deserialize, Debug, Clone, Copy, PartialEq)]
+    pub enum Kind {
+        /// every probability is 0 or a power of two (rows sub-stochastic by construction)
+        Dyadic,
+        /// integer weights over a denominator, zeros, sub-stochastic and all-zero rows
+        Dense,
+        /// state i -> (i + stride) mod S with one probability, state i emits one symbol: one possible path
+        Cycle,
+        /// left-to-right: stay or advance with probability 1/2 each, start in state 0
+        LeftRight,
+        /// block-diagonal transition matrix, each block with its own slice of the alphabet
+        Block,
+    }
+
+    #[derive(Serialize, Deserialize, Debug, Clone, Copy, PartialEq)]
+    pub enum ObsKind {
+        Random,
+        /// one symbol repeated (the largest one)
+        Constant,
+        /// a short random word repeated
+        Periodic,
+        /// symbols around 255/256, 65535/65536 and M-1 only
+        Thresholds,
+    }
+
+    #[derive(Serialize, Deserialize, Debug, Clone)]
+    pub struct Case {
+        pub kind: Kind,
+        /// number of states S >= 1
+        pub s: u32,
+        /// number of symbols M >= 1
+        pub m: u32,
+        /// number of observations T >= 1
+        pub t: u32,
+        /// Plain / OptEndNone / OptEndFree (OptEndSlack is treated like OptEndFree)
+        pub flavor: Flavor,
+        pub ctor: Ctor,
+        pub obs: ObsKind,
+        /// Some(p): the symbol observed at position p (p < T) is emitted by no state
+        pub impossible_at: Option<u32>,
+        pub seed: u64,
+    }
+
+    pub const INF: u32 = u32::MAX;
+
+    /// flat row-major model
+    pub struct Flat {
+        pub s: usize,
+        pub m: usize,
+        pub init: Vec<f64>,
+        pub trans: Vec<f64>,
+        pub emit: Vec<f64>,
+        pub end: Option<Vec<f64>>,
+        /// Some: every probability is exactly 2^-k (k = INF: probability 0); same layout
+        pub exps: Option<Exps>,
+        /// Some: the model has exactly one possible state path for the generated observations
+        pub single_path: Option<Vec<usize>>,
+    }
+
+    pub struct Exps {
+        pub init: Vec<u32>,
+        pub trans: Vec<u32>,
+        pub emit: Vec<u32>,
+        pub end: Option<Vec<u32>>,
+    }
+
+    fn pow2neg(k: u32) -> f64 {
+        if k == INF {
+            0.0
+        } else {
+            f64::from_bits(((1023 - k as u64) & 0x7ff) << 52)
+        }
+    }
+
+    fn ceil_log2(n: usize) -> u32 {
+        let mut k = 0;
+        while (1usize << k) < n {
+            k += 1;
+        }
+        k
+    }
+
+    fn has_end(c: &Case) -> bool {
+        matches!(c.flavor, Flavor::OptEndFree | Flavor::OptEndSlack)
+    }
+
+    /// model and observations of a case (deterministic)
+    pub fn build(c: &Case) -> Result<(Flat, Vec<usize>), Stop> {
+        let (s, m, t) = (c.s as usize, c.m as usize, c.t as usize);
+        ensure!(s >= 1 && m >= 1 && t >= 1, "harness: empty dimension in {:?}", c);
+        ensure!((s as u64) * (s as u64) <= 40_000_000 && (s as u64) * (m as u64) <= 40_000_000 && (s as u64) * (s as u64) * (t as u64) <= 4_000_000_000, "harness: case too large {:?}", c);
+        ensure!(c.impossible_at.map_or(true, |p| (p as usize) < t), "harness: impossible_at out of range in {:?}", c);
+        let mut g = Sm64::stream(c.seed, 1);
+        let mut og = Sm64::stream(c.seed, 2);
+        let end_wanted = has_end(c);
+        let mut exps: Option<Exps> = None;
+        let mut single: Option<Vec<usize>> = None;
+        let mut init = vec![0.0; s];
+        let mut trans = vec![0.0; s * s];
+        let mut emit = vec![0.0; s * m];
+        let mut end: Option<Vec<f64>> = None;
+        let mut obs: Vec<usize> = Vec::with_capacity(t);
+
+        // ---- observations that do not depend on the model
+        let gen_obs = |og: &mut Sm64, kind: ObsKind| -> Vec<usize> {
+            match kind {
+                ObsKind::Random => (0..t).map(|_| og.below(m as u64) as usize).collect(),
+                ObsKind::Constant => vec![m - 1; t],
+                ObsKind::Periodic => {
+                    let p = 1 + og.below(7) as usize;
+                    let w: Vec<usize> = (0..p).map(|_| og.below(m as u64) as usize).collect();
+                    (0..t).map(|i| w[i % p]).collect()
+                }
+                ObsKind::Thresholds => {
+                    let mut cand: Vec<usize> = vec![0, m - 1, m.saturating_sub(2), 254, 255, 256, 257, 65534, 65535, 65536, 65537];
+                    cand.retain(|&x| x < m);
+                    cand.sort_unstable();
+                    cand.dedup();
+                    (0..t).map(|_| cand[og.below(cand.len() as u64) as usize]).collect()
+                }
+            }
+        };
+
+        match c.kind {
+            Kind::Dyadic => {
+                let (ks, km) = (ceil_log2(s), ceil_log2(m));
+                let mut e = Exps { init: vec![INF; s], trans: vec![INF; s * s], emit: vec![INF; s * m], end: None };
+                let draw = |g: &mut Sm64, base: u32| -> u32 {
+                    let r = g.next();
+                    if r & 7 == 0 {
+                        INF
+                    } else {
+                        base + ((r >> 3) & 3) as u32
+                    }
+                };
+                for x in e.init.iter_mut() {
+                    *x = draw(&mut g, ks);
+                }
+                for x in e.trans.iter_mut() {
+                    *x = draw(&mut g, ks);
+                }
+                for x in e.emit.iter_mut() {
+                    *x = draw(&mut g, km);
+                }
+                if end_wanted {
+                    e.end = Some((0..s).map(|_| draw(&mut g, 0)).collect());
+                }
+                init = e.init.iter().map(|&k| pow2neg(k)).collect();
+                trans = e.trans.iter().map(|&k| pow2neg(k)).collect();
+                emit = e.emit.iter().map(|&k| pow2neg(k)).collect();
+                end = e.end.as_ref().map(|v| v.iter().map(|&k| pow2neg(k)).collect());
+                exps = Some(e);
+                obs = gen_obs(&mut og, c.obs);
+            }
+            Kind::Dense => {
+                let fill = |g: &mut Sm64, row: &mut [f64]| -> f64 {
+                    // returns the probability mass left over (1 - sum)
+                    let r = g.next();
+                    if r & 63 == 0 {
+                        for x in row.iter_mut() {
+                            *x = 0.0;
+                        }
+                        return 1.0;
+                    }
+                    let mut sum = 0u64;
+                    for x in row.iter_mut() {
+                        let w = g.next();
+                        let v = if w & 7 == 0 { 0 } else { 1 + ((w >> 3) % 1000) };
+                        *x = v as f64;
+                        sum += v;
+                    }
+                    let slack = if (r >> 6) & 3 == 0 { 1 + ((r >> 8) % (sum / 4 + 2)) } else { 0 };
+                    let d = (sum + slack) as f64;
+                    if sum + slack > 0 {
+                        for x in row.iter_mut() {
+                            *x /= d;
+                        }
+                    }
+                    if sum + slack > 0 {
+                        slack as f64 / d
+                    } else {
+                        1.0
+                    }
+                };
+                fill(&mut g, &mut init);
+                let mut left = vec![0.0; s];
+                for i in 0..s {
+                    left[i] = fill(&mut g, &mut trans[i * s..(i + 1) * s]);
+                }
+                for i in 0..s {
+                    fill(&mut g, &mut emit[i * m..(i + 1) * m]);
+                }
+                if end_wanted {
+                    let slack_based = g.next() & 1 == 0;
+                    end = Some((0..s).map(|i| if slack_based { left[i] } else { g.below(101) as f64 / 100.0 }).collect());
+                }
+                obs = gen_obs(&mut og, c.obs);
+            }
+            Kind::Cycle => {
+                let r = g.next();
+                let stride = if s == 1 { 0 } else { 1 + g.below(s as u64 - 1) as usize };
+                let ka = (r & 1) as u32; // transition probability 1 or 1/2
+                let kb = ((r >> 1) % 3) as u32; // emission probability 1, 1/2, 1/4
+                let one_hot = (r >> 3) & 1 == 0;
+                let s0 = s - 1 - g.below(s.min(4) as u64) as usize;
+                let off = if m >= s { m - s } else { 0 };
+                let sym = |i: usize| (i + off) % m;
+                for i in 0..s {
+                    trans[i * s + (i + stride) % s] = pow2neg(ka);
+                    emit[i * m + sym(i)] = pow2neg(kb);
+                }
+                let mut e = Exps { init: vec![INF; s], trans: vec![INF; s * s], emit: vec![INF; s * m], end: None };
+                for i in 0..s {
+                    e.trans[i * s + (i + stride) % s] = ka;
+                    e.emit[i * m + sym(i)] = kb;
+                }
+                if one_hot {
+                    init[s0] = 1.0;
+                    e.init[s0] = 0;
+                } else {
+                    for x in init.iter_mut() {
+                        *x = 1.0 / s as f64;
+                    }
+                }
+                if end_wanted {
+                    let ke: Vec<u32> = (0..s).map(|_| (g.next() % 3) as u32).collect();
+                    end = Some(ke.iter().map(|&k| pow2neg(k)).collect());
+                    e.end = Some(ke);
+                }
+                if one_hot {
+                    exps = Some(e);
+                }
+                let path: Vec<usize> = (0..t).map(|k| (s0 + k * stride) % s).collect();
+                obs = path.iter().map(|&i| sym(i)).collect();
+                if m >= s || one_hot {
+                    // every state has its own symbol, or only s0 can start: one possible path
+                    single = Some(path);
+                }
+            }
+            Kind::LeftRight => {
+                let r = g.next();
+                let last_absorbing = r & 1 == 0;
+                let mut e = Exps { init: vec![INF; s], trans: vec![INF; s * s], emit: vec![INF; s * m], end: None };
+                // start as far left as still allows reaching the last state
+                let start0 = s.saturating_sub(t);
+                e.init[start0] = 0;
+                for i in 0..s {
+                    if i + 1 < s {
+                        e.trans[i * s + i] = 1;
+                        e.trans[i * s + i + 1] = 1;
+                    } else {
+                        e.trans[i * s + i] = if last_absorbing { 0 } else { 1 };
+                    }
+                    if m == 1 {
+                        e.emit[i * m] = 0;
+                    } else {
+                        e.emit[i * m + i % m] = 1;
+                        e.emit[i * m + (i + 1) % m] = 1;
+                    }
+                }
+                if end_wanted {
+                    e.end = Some((0..s).map(|_| (g.next() % 3) as u32).collect());
+                }
+                init = e.init.iter().map(|&k| pow2neg(k)).collect();
+                trans = e.trans.iter().map(|&k| pow2neg(k)).collect();
+                emit = e.emit.iter().map(|&k| pow2neg(k)).collect();
+                end = e.end.as_ref().map(|v| v.iter().map(|&k| pow2neg(k)).collect());
+                exps = Some(e);
+                // simulate: advance with probability 1/2 (quickly for short sequences so that high states are reached)
+                let mut st = start0;
+                let fast = t < 4 * s;
+                for _ in 0..t {
+                    let o = if m == 1 { 0 } else if og.next() & 1 == 0 { st % m } else { (st + 1) % m };
+                    obs.push(o);
+                    let adv = if fast { og.next() & 7 != 0 } else { og.next() & 1 == 0 };
+                    if adv && st + 1 < s {
+                        st += 1;
+                    }
+                }
+            }
+            Kind::Block => {
+                let b = 2 + g.below(3) as usize; // block size 2..=4
+                let nb = (s + b - 1) / b;
+                let w = (m / nb).max(1); // alphabet slice width
+                let block_of = |i: usize| i / b;
+                let lo_sym = |j: usize| if m >= nb { j * w } else { j % m };
+                let hi_sym = |j: usize| if m >= nb { if j == nb - 1 { m } else { (j + 1) * w } } else { j % m + 1 };
+                for x in init.iter_mut() {
+                    *x = 1.0 / s as f64;
+                }
+                for i in 0..s {
+                    let j = block_of(i);
+                    let (lo, hi) = (j * b, ((j + 1) * b).min(s));
+                    let mut sum = 0.0;
+                    for k in lo..hi {
+                        let v = (1 + g.below(9)) as f64;
+                        trans[i * s + k] = v;
+                        sum += v;
+                    }
+                    let slack = if g.next() & 3 == 0 { 1.0 } else { 0.0 };
+                    for k in lo..hi {
+                        trans[i * s + k] /= sum + slack;
+                    }
+                    let (sl, sh) = (lo_sym(j), hi_sym(j));
+                    // at most 8 emitted symbols per state (the first and the last of the slice included)
+                    let width = sh - sl;
+                    let mut syms: Vec<usize> = if width <= 8 { (sl..sh).collect() } else { vec![sl, sl + 1, sl + width / 2, sh - 2, sh - 1] };
+                    syms.dedup();
+                    let mut es = 0.0;
+                    for &o in &syms {
+                        let v = (1 + g.below(9)) as f64;
+                        emit[i * m + o] = v;
+                        es += v;
+                    }
+                    for &o in &syms {
+                        emit[i * m + o] /= es;
+                    }
+                }
+                if end_wanted {
+                    end = Some((0..s).map(|_| g.below(101) as f64 / 100.0).collect());
+                }
+                // observations from the slice of one of the last blocks
+                let j = nb - 1 - og.below(nb.min(2) as u64) as usize;
+                let (sl, sh) = (lo_sym(j), hi_sym(j));
+                let width = sh - sl;
+                let cand: Vec<usize> = if width <= 8 { (sl..sh).collect() } else { vec![sl, sl + 1, sl + width / 2, sh - 2, sh - 1] };
+                obs = (0..t).map(|_| cand[og.below(cand.len() as u64) as usize]).collect();
+            }
+        }
+
+        if let Some(p) = c.impossible_at {
+            let z = obs[p as usize];
+            for i in 0..s {
+                emit[i * m + z] = 0.0;
+            }
+            if let Some(e) = exps.as_mut() {
+                for i in 0..s {
+                    e.emit[i * m + z] = INF;
+                }
+            }
+            single = None;
+        }
+        ensure!(obs.len() == t && obs.iter().all(|&o| o < m), "harness: bad observations generated for {:?}", c);
+        Ok((Flat { s, m, init, trans, emit, end, exps, single_path: single }, obs))
+    }
+
+    // ---- the reference ------------------------------------------------------------------------
+
+    fn ln_vec(v: &[f64]) -> Vec<f64> {
+        v.iter().map(|x| x.ln()).collect()
+    }
+
+    /// log of the maximal joint probability over all state paths (max-sum over std logarithms)
+    pub fn ref_viterbi_log(f: &Flat, obs: &[usize]) -> f64 {
+        let (s, m) = (f.s, f.m);
+        let lt = ln_vec(&f.trans);
+        let le = ln_vec(&f.emit);
+        let mut v: Vec<f64> = (0..s).map(|i| f.init[i].ln() + le[i * m + obs[0]]).collect();
+        let mut nv = vec![f64::NEG_INFINITY; s];
+        for &o in &obs[1..] {
+            for x in nv.iter_mut() {
+                *x = f64::NEG_INFINITY;
+            }
+            for i in 0..s {
+                let vi = v[i];
+                if vi == f64::NEG_INFINITY {
+                    continue;
+                }
+                let row = &lt[i * s..(i + 1) * s];
+                for j in 0..s {
+                    let c = vi + row[j];
+                    if c > nv[j] {
+                        nv[j] = c;
+                    }
+                }
+            }
+            for j in 0..s {
+                nv[j] += le[j * m + o];
+            }
+            std::mem::swap(&mut v, &mut nv);
+        }
+        let mut best = f64::NEG_INFINITY;
+        for i in 0..s {
+            let e = match &f.end {
+                Some(e) => e[i].ln(),
+                None => 0.0,
+            };
+            best = best.max(v[i] + e);
+        }
+        best
+    }
+
+    /// log-likelihood by the scaled forward recursion in linear space
+    pub fn ref_forward_log(f: &Flat, obs: &[usize]) -> f64 {
+        let (s, m) = (f.s, f.m);
+        let mut a: Vec<f64> = (0..s).map(|i| f.init[i] * f.emit[i * m + obs[0]]).collect();
+        let mut na = vec![0.0; s];
+        let mut ll = 0.0;
+        let mut first = true;
+        for &o in obs {
+            if !first {
+                for x in na.iter_mut() {
+                    *x = 0.0;
+                }
+                for i in 0..s {
+                    let ai = a[i];
+                    if ai == 0.0 {
+                        continue;
+                    }
+                    let row = &f.trans[i * s..(i + 1) * s];
+                    for j in 0..s {
+                        na[j] += ai * row[j];
+                    }
+                }
+                for j in 0..s {
+                    na[j] *= f.emit[j * m + o];
+                }
+                std::mem::swap(&mut a, &mut na);
+            }
+            first = false;
+            let c: f64 = a.iter().sum();
+            if c == 0.0 {
+                return f64::NEG_INFINITY;
+            }
+            ll += c.ln();
+            for x in a.iter_mut() {
+                *x /= c;
+            }
+        }
+        let fin: f64 = match &f.end {
+            Some(e) => (0..s).map(|i| a[i] * e[i]).sum(),
+            None => a.iter().sum(),
+        };
+        if fin == 0.0 {
+            f64::NEG_INFINITY
+        } else {
+            ll + fin.ln()
+        }
+    }
+
+    /// log-likelihood by the scaled backward recursion in linear space
+    pub fn ref_backward_log(f: &Flat, obs: &[usize]) -> f64 {
+        let (s, m) = (f.s, f.m);
+        let t = obs.len();
+        let mut b: Vec<f64> = match &f.end {
+            Some(e) => e.clone(),
+            None => vec![1.0; s],
+        };
+        let mut nb = vec![0.0; s];
+        let mut ll = 0.0;
+        for k in (1..t).rev() {
+            // b_{k-1}[i] = sum_j trans[i][j] emit[j][obs[k]] b_k[j]
+            let o = obs[k];
+            let w: Vec<f64> = (0..s).map(|j| f.emit[j * m + o] * b[j]).collect();
+            for i in 0..s {
+                let row = &f.trans[i * s..(i + 1) * s];
+                let mut acc = 0.0;
+                for j in 0..s {
+                    acc += row[j] * w[j];
+                }
+                nb[i] = acc;
+            }
+            std::mem::swap(&mut b, &mut nb);
+            let c: f64 = b.iter().cloned().fold(0.0, f64::max);
+            if c == 0.0 {
+                return f64::NEG_INFINITY;
+            }
+            ll += c.ln();
+            for x in b.iter_mut() {
+                *x /= c;
+            }
+        }
+        let fin: f64 = (0..s).map(|i| f.init[i] * f.emit[i * m + obs[0]] * b[i]).sum();
+        if fin == 0.0 {
+            f64::NEG_INFINITY
+        } else {
+            ll + fin.ln()
+        }
+    }
+
+    /// log of the joint probability of one path (sum of std logarithms)
+    pub fn log_joint(f: &Flat, obs: &[usize], path: &[usize]) -> f64 {
+        let (s, m) = (f.s, f.m);
+        let mut l = f.init[path[0]].ln() + f.emit[path[0] * m + obs[0]].ln();
+        for k in 1..obs.len() {
+            l += f.trans[path[k - 1] * s + path[k]].ln() + f.emit[path[k] * m + obs[k]].ln();
+        }
+        if let Some(e) = &f.end {
+            l += e[path[obs.len() - 1]].ln();
+        }
+        l
+    }
+
+    fn addk(a: u64, k: u32) -> u64 {
+        if a == u64::MAX || k == INF {
+            u64::MAX
+        } else {
+            a + k as u64
+        }
+    }
+
+    /// minimal integer cost over all paths (u64::MAX: no possible path)
+    pub fn int_viterbi(f: &Flat, e: &Exps, obs: &[usize]) -> u64 {
+        let (s, m) = (f.s, f.m);
+        let mut v: Vec<u64> = (0..s).map(|i| addk(addk(0, e.init[i]), e.emit[i * m + obs[0]])).collect();
+        let mut nv = vec![u64::MAX; s];
+        for &o in &obs[1..] {
+            for x in nv.iter_mut() {
+                *x = u64::MAX;
+            }
+            for i in 0..s {
+                if v[i] == u64::MAX {
+                    continue;
+                }
+                let row = &e.trans[i * s..(i + 1) * s];
+                for j in 0..s {
+                    let c = addk(v[i], row[j]);
+                    if c < nv[j] {
+                        nv[j] = c;
+                    }
+                }
+            }
+            for j in 0..s {
+                nv[j] = addk(nv[j], e.emit[j * m + o]);
+            }
+            std::mem::swap(&mut v, &mut nv);
+        }
+        (0..s).map(|i| match &e.end { Some(x) => addk(v[i], x[i]), None => v[i] }).min().unwrap()
+    }
+
+    pub fn int_cost(f: &Flat, e: &Exps, obs: &[usize], path: &[usize]) -> u64 {
+        let (s, m) = (f.s, f.m);
+        let mut c = addk(addk(0, e.init[path[0]]), e.emit[path[0] * m + obs[0]]);
+        for k in 1..obs.len() {
+            c = addk(addk(c, e.trans[path[k - 1] * s + path[k]]), e.emit[path[k] * m + obs[k]]);
+        }
+        if let Some(x) = &e.end {
+            c = addk(c, x[path[obs.len() - 1]]);
+        }
+        c
+    }
+
+    // ---- the library --------------------------------------------------------------------------
+
+    fn run_flat(c: &Case, f: &Flat, obs: &[usize]) -> Result<Outputs, Stop> {
+        let (s, m) = (f.s, f.m);
+        let tr = Array2::from_shape_vec((s, s), f.trans.clone()).unwrap();
+        let em = Array2::from_shape_vec((s, m), f.emit.clone()).unwrap();
+        let ini = Array1::from(f.init.clone());
+        let endv = f.end.clone().map(Array1::from);
+        let lp = |x: &f64| LogProb(x.ln());
+        let out = match c.flavor {
+            Flavor::Plain => {
+                let hmm = match c.ctor {
+                    Ctor::WithFloat => Plain::with_float(&tr, &em, &ini),
+                    Ctor::WithProb => Plain::with_prob(&tr.map(|x| Prob(*x)), &em.map(|x| Prob(*x)), &ini.map(|x| Prob(*x))),
+                    Ctor::NewLog => Plain::new(tr.map(lp), em.map(lp), ini.map(lp)),
+                };
+                drop((tr, em));
+                let Ok(hmm) = hmm else { fail!("constructor rejected consistent dimensions S={} M={}", s, m) };
+                run(&hmm, obs)
+            }
+            _ => {
+                let hmm = match c.ctor {
+                    Ctor::WithFloat => OptEnd::with_float(&tr, &em, &ini, endv.as_ref()),
+                    Ctor::WithProb => {
+                        let e = endv.as_ref().map(|e| e.map(|x| Prob(*x)));
+                        OptEnd::with_prob(&tr.map(|x| Prob(*x)), &em.map(|x| Prob(*x)), &ini.map(|x| Prob(*x)), e.as_ref())
+                    }
+                    Ctor::NewLog => {
+                        let e = match &endv {
+                            Some(e) => e.map(lp),
+                            None => Array1::from(vec![LogProb::ln_one(); s]),
+                        };
+                        OptEnd::new(RefCell::new(tr.map(lp)), RefCell::new(em.map(lp)), RefCell::new(ini.map(lp)), RefCell::new(e), endv.is_some())
+                    }
+                };
+                drop((tr, em));
+                let Ok(hmm) = hmm else { fail!("constructor rejected consistent dimensions S={} M={}", s, m) };
+                run(&hmm, obs)
+            }
+        };
+        Ok(out)
+    }
+
+    fn to_dense(f: &Flat) -> Dense {
+        Dense {
+            s: f.s,
+            m: f.m,
+            init: f.init.clone(),
+            trans: (0..f.s).map(|i| f.trans[i * f.s..(i + 1) * f.s].to_vec()).collect(),
+            emit: (0..f.s).map(|i| f.emit[i * f.m..(i + 1) * f.m].to_vec()).collect(),
+            end: f.end.clone(),
+        }
+    }
+
+    pub fn from_dense(d: &Dense) -> Flat {
+        Flat { s: d.s, m: d.m, init: d.init.clone(), trans: d.trans.concat(), emit: d.emit.concat(), end: d.end.clone(), exps: None, single_path: None }
+    }
+
+    const EPS: f64 = 2.220446049250313e-16;
+
+    fn tol_round(t: usize, l: f64) -> f64 {
+        let a = if l.is_finite() { l.abs() } else { 0.0 };
+        (1e-9 * a.max(1.0)).max(4.0 * (t as f64 + 2.0) * EPS * a)
+    }
+
+    fn close(a: f64, b: f64, tol: f64) -> bool {
+        a == b || (a - b).abs() <= tol
+    }
+
+    /// the reference against the enumeration of all paths (small cases)
+    pub fn cross_validate(f: &Flat, obs: &[usize], what: &str) -> Result<(), Stop> {
+        let d = to_dense(f);
+        let o8: Vec<u8> = obs.iter().map(|&o| o as u8).collect();
+        let en = enumerate_paths(&d, &o8);
+        let rv = ref_viterbi_log(f, obs).exp();
+        let rf = ref_forward_log(f, obs).exp();
+        let rb = ref_backward_log(f, obs).exp();
+        ensure!(super::rel_err(rv, en.best) <= 1e-9, "harness: reference Viterbi {:e} != maximum over all {} paths {:e} ({})", rv, en.n_paths, en.best, what);
+        ensure!(super::rel_err(rf, en.total) <= 1e-9, "harness: reference forward {:e} != sum over all {} paths {:e} ({})", rf, en.n_paths, en.total, what);
+        ensure!(super::rel_err(rb, en.total) <= 1e-9, "harness: reference backward {:e} != sum over all {} paths {:e} ({})", rb, en.n_paths, en.total, what);
+        if let Some(e) = &f.exps {
+            let k = int_viterbi(f, e, obs);
+            let p = if k == u64::MAX { 0.0 } else { (-(k as f64) * std::f64::consts::LN_2).exp() };
+            ensure!(super::rel_err(p, en.best) <= 1e-9, "harness: integer shortest path cost {} (2^-cost = {:e}) != maximum over all paths {:e} ({})", k, p, en.best, what);
+        }
+        if let Some(p) = &f.single_path {
+            ensure!(en.n_positive == 1, "harness: 'single path' model has {} possible paths ({})", en.n_positive, what);
+            let o8p = joint(&d, &o8, p);
+            ensure!(o8p > 0.0 && super::rel_err(o8p, en.best) <= 1e-12, "harness: the predicted single path {:?} has joint {:e}, maximum {:e} ({})", p, o8p, en.best, what);
+        }
+        Ok(())
+    }
+
+    pub fn check(c: &Case) -> R {
+        let _published = crate::oracles::scale::c141516::publish(c);
+        let (f, obs) = build(c)?;
+        let (s, m, t) = (f.s, f.m, obs.len());
+        let what = format!("{:?}", c);
+        let small = t <= 12 && (s as f64).powi(t as i32) <= 20_000.0 && m <= 255; // (longer sequences underflow in the linear-space enumeration)
+        if small {
+            cross_validate(&f, &obs, &what)?;
+        }
+        let rv = ref_viterbi_log(&f, &obs);
+        let rf = ref_forward_log(&f, &obs);
+        let rb = ref_backward_log(&f, &obs);
+        ensure!(close(rf, rb, tol_round(t, rf) * 10.0), "harness: reference forward {} != reference backward {} for {}", rf, rb, what);
+        ensure!((rv == f64::NEG_INFINITY) == (rf == f64::NEG_INFINITY), "harness: reference Viterbi {} and forward {} disagree about possibility for {}", rv, rf, what);
+        ensure!(rv <= rf + tol_round(t, rf) * 10.0, "harness: reference Viterbi {} > reference forward {} for {}", rv, rf, what);
+
+        let out = run_flat(c, &f, &obs)?;
+        for (name, lp) in [("viterbi", out.vit), ("forward", out.fwd), ("backward", out.bwd)] {
+            ensure!(!lp.is_nan(), "{} returned NaN for {}", name, what);
+            ensure!(lp != f64::INFINITY, "{} returned +inf for {}", name, what);
+        }
+        ensure!(out.vit_path.len() == t, "viterbi path has length {} for {} observations; {}", out.vit_path.len(), t, what);
+        ensure!(out.vit_path.iter().all(|&x| x < s), "viterbi path contains a state >= S = {}; {}", s, what);
+
+        let impossible = rf == f64::NEG_INFINITY;
+        let tv = tol_round(t, rv);
+        let tf = (t as f64 + 1.0) * 1e-5 + tv;
+        let mut exact_opt = false;
+        if impossible {
+            ensure!(out.vit == f64::NEG_INFINITY, "impossible sequence: viterbi reports log-prob {}, expected ln(0); {}", out.vit, what);
+            ensure!(out.fwd == f64::NEG_INFINITY, "impossible sequence: forward reports log-prob {}, expected ln(0); {}", out.fwd, what);
+            ensure!(out.bwd == f64::NEG_INFINITY, "impossible sequence: backward reports log-prob {}, expected ln(0); {}", out.bwd, what);
+        } else {
+            let pj = log_joint(&f, &obs, &out.vit_path);
+            let show_path = |p: &[usize]| if p.len() <= 24 { format!("{:?}", p) } else { format!("[{} states: {:?} .. {:?}]", p.len(), &p[..8], &p[p.len() - 8..]) };
+            ensure!(
+                close(out.vit, pj, tv),
+                "viterbi reports log-probability {} but its path {} has joint log-probability {} (difference {:e} > {:e}; reference optimum {}); {}",
+                out.vit, show_path(&out.vit_path), pj, (out.vit - pj).abs(), tv, rv, what
+            );
+            ensure!(
+                close(out.vit, rv, tv),
+                "viterbi reports log-probability {} (path {}, joint {}) but the maximum over all paths is {} (difference {:e} > {:e}); {}",
+                out.vit, show_path(&out.vit_path), pj, rv, (out.vit - rv).abs(), tv, what
+            );
+            if let Some(e) = &f.exps {
+                let opt = int_viterbi(&f, e, &obs);
+                let got = int_cost(&f, e, &obs, &out.vit_path);
+                ensure!(opt != u64::MAX, "harness: integer oracle says impossible but the reference says {} for {}", rv, what);
+                ensure!(
+                    got == opt,
+                    "viterbi path {} has joint probability 2^-{} but the maximum over all paths is 2^-{} (all probabilities of the model are powers of two: exact); reported log-probability {}; {}",
+                    show_path(&out.vit_path), got as i64, opt, out.vit, what
+                );
+                let exact = -(opt as f64) * std::f64::consts::LN_2;
+                ensure!(close(out.vit, exact, tv), "viterbi reports log-probability {} but the maximal joint probability is exactly 2^-{} (log {}); {}", out.vit, opt, exact, what);
+                exact_opt = true;
+            }
+            ensure!(close(out.fwd, rf, tf), "forward log-likelihood {} differs from the reference (scaled sum-product in f64) {} by {:e} > {:e}; {}", out.fwd, rf, (out.fwd - rf).abs(), tf, what);
+            ensure!(close(out.bwd, rf, tf), "backward log-likelihood {} differs from the reference (scaled sum-product in f64) {} by {:e} > {:e}; {}", out.bwd, rf, (out.bwd - rf).abs(), tf, what);
+            ensure!(close(out.fwd, out.bwd, tf), "forward log-likelihood {} != backward log-likelihood {} (difference {:e} > {:e}; reference {}); {}", out.fwd, out.bwd, (out.fwd - out.bwd).abs(), tf, rf, what);
+            ensure!(out.fwd >= out.vit - tf, "forward log-likelihood {} is smaller than the viterbi log-probability {}; {}", out.fwd, out.vit, what);
+            ensure!(out.bwd >= out.vit - tf, "backward log-likelihood {} is smaller than the viterbi log-probability {}; {}", out.bwd, out.vit, what);
+            if let Some(p) = &f.single_path {
+                // exactly one possible path: it is the Viterbi path, and every log-sum-exp of forward/backward
+                // has a single finite operand (no approximate exponential involved): rounding only
+                let first_diff = (0..t).find(|&k| p[k] != out.vit_path[k]);
+                ensure!(
+                    first_diff.is_none(),
+                    "the model has exactly one possible state path but viterbi returns a different one: first difference at position {}: expected state {}, got {}; {}",
+                    first_diff.unwrap(), p[first_diff.unwrap()], out.vit_path[first_diff.unwrap()], what
+                );
+                let lj = log_joint(&f, &obs, p);
+                ensure!(close(out.fwd, lj, tv) && close(out.bwd, lj, tv), "one possible path with log-probability {}: forward {} / backward {} differ by more than rounding ({:e}); {}", lj, out.fwd, out.bwd, tv, what);
+            }
+        }
+
+        let max_state = out.vit_path.iter().cloned().max().unwrap_or(0);
+        let max_sym = obs.iter().cloned().max().unwrap_or(0);
+        let big = s >= 255 || m >= 255 || t >= 255;
+        let mut pass = Pass::new(!impossible && (big || (s >= 2 && t >= 2)));
+        if let Some(l) = rung!("S", s) {
+            pass.add(l);
+        }
+        if let Some(l) = rung!("M", m) {
+            pass.add(l);
+        }
+        if let Some(l) = rung!("T", t) {
+            pass.add(l);
+        }
+        pass.add_if(s > 1025 && s < 4095, "S in 1026..4094");
+        pass.add_if(t > 257 && s >= 255, "S >= 255 and T >= 255 together");
+        pass.add_if(!impossible && max_state >= 256, "viterbi path visits a state >= 256");
+        pass.add_if(!impossible && max_state >= 1024, "viterbi path visits a state >= 1024");
+        pass.add_if(max_sym >= 256, "observed symbol >= 256");
+        pass.add_if(max_sym >= 65536, "observed symbol >= 65536");
+        pass.add_if(max_sym + 1 == m && m >= 255, "largest symbol observed");
+        pass.add_if(impossible, "impossible sequence");
+        pass.add_if(impossible && c.impossible_at.is_some_and(|p| p >= 255), "impossible because of a symbol at position >= 255");
+        pass.add_if(impossible && c.impossible_at.is_some_and(|p| p >= 65535), "impossible because of a symbol at position >= 65535");
+        pass.add_if(exact_opt, "maximality decided exactly (dyadic model, integer shortest path)");
+        pass.add_if(f.single_path.is_some() && !impossible, "one possible path (analytic answer, likelihood within rounding)");
+        pass.add_if(small, "reference cross-validated against the path enumeration");
+        pass.add_if(!small, "beyond the reach of the path enumeration");
+        pass.add(match c.kind {
+            Kind::Dyadic => "dyadic model",
+            Kind::Dense => "dense model",
+            Kind::Cycle => "cycle model",
+            Kind::LeftRight => "left-to-right model",
+            Kind::Block => "block-diagonal model",
+        });
+        pass.add(match c.flavor {
+            Flavor::Plain => "plain model",
+            Flavor::OptEndNone => "opt_end model, end=None",
+            _ => "explicit end probabilities",
+        });
+        pass.add(match c.ctor {
+            Ctor::WithFloat => "ctor with_float",
+            Ctor::WithProb => "ctor with_prob",
+            Ctor::NewLog => "ctor new(LogProb)",
+        });
+        pass.add(match c.obs {
+            ObsKind::Random => "observations random",
+            ObsKind::Constant => "observations constant",
+            ObsKind::Periodic => "observations periodic",
+            ObsKind::Thresholds => "observations at threshold symbols",
+        });
+        Ok(pass)
+    }
+
+    // ---- deterministic ladders ----------------------------------------------------------------
+
+    const FLAVORS: [Flavor; 3] = [Flavor::Plain, Flavor::OptEndFree, Flavor::OptEndNone];
+    const CTORS: [Ctor; 3] = [Ctor::WithFloat, Ctor::NewLog, Ctor::WithProb];
+    const KINDS: [Kind; 5] = [Kind::Dyadic, Kind::Cycle, Kind::Dense, Kind::LeftRight, Kind::Block];
+    const OBS: [ObsKind; 4] = [ObsKind::Random, ObsKind::Thresholds, ObsKind::Constant, ObsKind::Periodic];
+
+    fn mk(k: usize, kind: Kind, s: u64, m: u64, t: u64, impossible_at: Option<u32>) -> Case {
+        Case {
+            kind,
+            s: s as u32,
+            m: m as u32,
+            t: t as u32,
+            flavor: FLAVORS[k % 3],
+            ctor: CTORS[(k / 3) % 3],
+            obs: OBS[(k / 2) % 4],
+            impossible_at,
+            seed: 0x5eed_0014_0000 + k as u64 * 7919,
+        }
+    }
+
+    /// S across the ladder (T small so that S*S*T stays cheap)
+    pub fn enumerate_states(tier: Tier) -> Box<dyn Iterator<Item = Case>> {
+        let mut v = Vec::new();
+        let mut k = 0usize;
+        let mut vals = ladder(1025);
+        vals.extend([300, 700]);
+        for &s in &vals {
+            for (ki, &kind) in KINDS.iter().enumerate() {
+                // T: 1, 2, 3 rotate (1 and 2 are the special branches of backward)
+                let t = [3u64, 2, 4, 1, 3][(k + ki) % 5];
+                let m = match kind {
+                    Kind::Cycle => s + [0, 1, 3][k % 3],
+                    Kind::Block => s,
+                    _ => [2u64, 3, 5][k % 3],
+                };
+                v.push(mk(k, kind, s, m, t, None));
+                k += 1;
+            }
+        }
+        // S and T large together
+        v.push(mk(k, Kind::Cycle, 257, 257, 257, None));
+        k += 1;
+        v.push(mk(k, Kind::Dyadic, 256, 3, 300, None));
+        k += 1;
+        v.push(mk(k, Kind::LeftRight, 300, 2, 256, None));
+        k += 1;
+        v.push(mk(k, Kind::Dyadic, 257, 3, 3, Some(2)));
+        k += 1;
+        for (i, &s) in [2047u64, 2048, 2049].iter().enumerate() {
+            for (ki, &kind) in [Kind::Cycle, Kind::Dyadic, Kind::Dense].iter().enumerate() {
+                if tier == Tier::Quick && (i + ki) % 3 != 0 {
+                    continue;
+                }
+                let m = if kind == Kind::Cycle { s } else { 2 };
+                v.push(mk(k, kind, s, m, 2, None));
+                k += 1;
+            }
+        }
+        Box::new(v.into_iter())
+    }
+
+    /// S in 4095..4097 (16.8 million transition probabilities; about two CPU seconds per case)
+    pub fn enumerate_states_4096(tier: Tier) -> Box<dyn Iterator<Item = Case>> {
+        let mut v = Vec::new();
+        let mut k = 500usize;
+        for (i, &s) in [4095u64, 4096, 4097].iter().enumerate() {
+            for (ki, &kind) in [Kind::Cycle, Kind::Dyadic, Kind::Dense].iter().enumerate() {
+                if tier == Tier::Quick && (i + ki) % 3 != 0 {
+                    continue;
+                }
+                let m = if kind == Kind::Cycle { s } else { 2 };
+                v.push(mk(k, kind, s, m, 2, None));
+                k += 1;
+            }
+        }
+        Box::new(v.into_iter())
+    }
+
+    /// M across the ladder
+    pub fn enumerate_symbols(tier: Tier) -> Box<dyn Iterator<Item = Case>> {
+        let mut v = Vec::new();
+        let mut k = 1000usize;
+        let top = match tier {
+            Tier::Quick => (1u64 << 20) + 1,
+            Tier::Thorough => (1u64 << 20) + 1,
+        };
+        for &m in &ladder(top) {
+            for (ki, &kind) in [Kind::Dyadic, Kind::Dense, Kind::Block].iter().enumerate() {
+                let s = [2u64, 3, 4][(k + ki) % 3];
+                let t = 6 + (k % 5) as u64;
+                let mut c = mk(k, kind, s, m, t, None);
+                c.obs = [ObsKind::Thresholds, ObsKind::Constant, ObsKind::Random][k % 3];
+                v.push(c);
+                k += 1;
+            }
+            // many states AND many symbols: every state its own symbol
+            if m <= 1025 {
+                v.push(mk(k, Kind::Cycle, m, m, 5, None));
+                k += 1;
+            }
+        }
+        // an impossible symbol among many
+        v.push(mk(k, Kind::Dense, 3, 65537, 9, Some(4)));
+        Box::new(v.into_iter())
+    }
+
+    /// T across the ladder (few states)
+    pub fn enumerate_length(tier: Tier) -> Box<dyn Iterator<Item = Case>> {
+        let mut v = Vec::new();
+        let mut k = 2000usize;
+        for &t in &ladder((1 << 20) + 1) {
+            let kinds: &[Kind] = if t <= 70_000 || tier == Tier::Thorough { &KINDS } else if t <= 131_073 { &[Kind::Cycle, Kind::Dyadic, Kind::Dense] } else { &[Kind::Cycle, Kind::Dyadic] };
+            // above 2^17 each value of a rung gets one kind (quick); thorough: all
+            for (ki, &kind) in kinds.iter().enumerate() {
+                if tier == Tier::Quick && t > 131_073 && (t as usize + ki) % 2 != 0 {
+                    continue;
+                }
+                let s = match kind {
+                    Kind::Cycle => [2u64, 3, 5][k % 3],
+                    Kind::LeftRight => [2u64, 3, 4][k % 3],
+                    Kind::Block => [4u64, 5, 6][k % 3],
+                    _ => [2u64, 3][k % 2],
+                };
+                let m = match kind {
+                    Kind::Cycle => s,
+                    _ => [2u64, 3, 4][k % 3],
+                };
+                v.push(mk(k, kind, s, m, t, None));
+                k += 1;
+            }
+        }
+        // impossible symbols deep inside a long sequence
+        for (t, p) in [(300u64, 256u32), (70_000, 65_536), (70_000, 65_535), (66_000, 0), (65_537, 65_536)] {
+            v.push(mk(k, Kind::Dyadic, 2, 3, t, Some(p)));
+            k += 1;
+            v.push(mk(k, Kind::Dense, 3, 3, t, Some(p)));
+            k += 1;
+        }
+        Box::new(v.into_iter())
+    }
+
+    // ---- random variation ---------------------------------------------------------------------
+
+    fn size_near_ladder(max: u64) -> BoxedStrategy<u64> {
+        let l = ladder(max);
+        let n = l.len();
+        prop_oneof![
+            // a ladder value +- 2
+            3 => (0..n, -2i64..=2).prop_map(move |(i, d)| (l[i] as i64 + d).max(1) as u64),
+            // anything in between
+            1 => 255u64..=max,
+        ]
+        .boxed()
+    }
+
+    pub fn strat(tier: Tier) -> BoxedStrategy<Case> {
+        let tmax: u64 = match tier {
+            Tier::Quick => 131_073,
+            Tier::Thorough => (1 << 20) + 1,
+        };
+        let kind = prop_oneof![Just(Kind::Dyadic), Just(Kind::Dense), Just(Kind::Cycle), Just(Kind::LeftRight), Just(Kind::Block)];
+        let dims = prop_oneof![
+            // many states
+            3 => (size_near_ladder(1025), 1u64..=6, 1u64..=4).prop_map(|(s, m, t)| (s, m, t)),
+            // many symbols
+            2 => (1u64..=4, size_near_ladder((1 << 20) + 1), 1u64..=12).prop_map(|(s, m, t)| (s, m, t)),
+            // long sequences
+            3 => (1u64..=4, 1u64..=5, size_near_ladder(tmax)).prop_map(|(s, m, t)| (s, m, t)),
+            // everything moderately large
+            1 => (200u64..=300, 200u64..=300, 200u64..=300).prop_map(|(s, m, t)| (s, m, t)),
+        ];
+        (
+            kind,
+            dims,
+            prop_oneof![Just(Flavor::Plain), Just(Flavor::OptEndNone), Just(Flavor::OptEndFree)],
+            prop_oneof![4 => Just(Ctor::WithFloat), 1 => Just(Ctor::WithProb), 1 => Just(Ctor::NewLog)],
+            prop_oneof![Just(ObsKind::Random), Just(ObsKind::Constant), Just(ObsKind::Periodic), Just(ObsKind::Thresholds)],
+            proptest::option::weighted(0.1, any::<u16>()),
+            any::<u64>(),
+        )
+            .prop_map(|(kind, (s, mut m, t), flavor, ctor, obs, imp, seed)| {
+                if kind == Kind::Cycle && s > 4 {
+                    m = m.max(s); // keep the emission matrix S x M small unless S is small
+                }
+                if s * m > 30_000_000 {
+                    m = 30_000_000 / s;
+                }
+                let impossible_at = imp.map(|f| idx(f, t as usize - 1) as u32);
+                Case { kind, s: s as u32, m: m as u32, t: t as u32, flavor, ctor, obs, impossible_at, seed }
+            })
+            .boxed()
+    }
+
+    /// the large check at SMALL sizes: every case is cross-validated against the path enumeration
+    pub fn strat_small(_tier: Tier) -> BoxedStrategy<Case> {
+        let kind = prop_oneof![Just(Kind::Dyadic), Just(Kind::Dense), Just(Kind::Cycle), Just(Kind::LeftRight), Just(Kind::Block)];
+        (
+            kind,
+            (1u64..=5, 1u64..=5, any::<u16>()),
+            prop_oneof![Just(Flavor::Plain), Just(Flavor::OptEndNone), Just(Flavor::OptEndFree)],
+            prop_oneof![4 => Just(Ctor::WithFloat), 1 => Just(Ctor::WithProb), 1 => Just(Ctor::NewLog)],
+            prop_oneof![Just(ObsKind::Random), Just(ObsKind::Constant), Just(ObsKind::Periodic), Just(ObsKind::Thresholds)],
+            proptest::option::weighted(0.1, any::<u16>()),
+            any::<u64>(),
+        )
+            .prop_map(|(kind, (s, m, tf), flavor, ctor, obs, imp, seed)| {
+                let mut tmax = 1usize;
+                while tmax < 9 && (s as f64).powi(tmax as i32 + 1) <= 20_000.0 {
+                    tmax += 1;
+                }
+                let t = 1 + idx(tf, tmax - 1) as u64;
+                let impossible_at = imp.map(|f| idx(f, t as usize - 1) as u32);
+                Case { kind, s: s as u32, m: m as u32, t: t as u32, flavor, ctor, obs, impossible_at, seed }
+            })
+            .boxed()
+    }
+
+    /// reference vs enumeration on the cases of the existing small generator (no library call)
+    pub fn check_reference(c: &super::Case) -> R {
+        let d = dense(c)?;
+        let f = from_dense(&d);
+        let obs: Vec<usize> = c.obs.iter().map(|&o| o as usize).collect();
+        cross_validate(&f, &obs, "a case of the C14/random generator")?;
+        let rf = ref_forward_log(&f, &obs);
+        Ok(Pass::new(d.s >= 2 && obs.len() >= 2).class_if(rf == f64::NEG_INFINITY, "impossible sequence").class_if(d.end.is_some(), "explicit end probabilities").class("reference cross-validated against the path enumeration"))
+    }
+}
+
 pub fn property() -> Property {
     Property {
         id: "C14",
-        rule: "random: S in 1..=4 states, M in 1..=4 symbols, T in 1..=6 observations (S^T <= 4096; thorough S<=5, T<=9, S^T<=20000); probability vectors are integer weights over a denominator (weights zero with probability ~1/4, uniform and one-hot rows, duplicated rows, slack>0 = sub-stochastic, all-zero rows allowed); models discrete_emission and discrete_emission_opt_end with end=None, with free explicit end probabilities, and with end = 1 - transition row sum; three constructors; impossible sequences forced in ~10% (no emitter, zero init, zero end, zero transitions). exhaustive: all 2-state 2-symbol models with weights in {0,1}, end absent / in {0,1/4,1/2}^2, all observation sequences up to length 3 (thorough 4). Oracle: enumeration of all S^T paths in f64 (joint = init*prod trans*prod emit*end(last) when end probabilities are explicit): viterbi value = joint of its path = max joint (rel 1e-9), forward = backward = path sum (rel 1e-3), likelihood >= viterbi*(1-1e-3), impossible => exactly ln(0) from all three, never NaN/+inf/panic. Non-trivial = S>=2, T>=2 and at least two paths of positive probability; distinct = distinct serialised case.",
+        rule: "random: S in 1..=4 states, M in 1..=4 symbols, T in 1..=6 observations (S^T <= 4096; thorough S<=5, T<=9, S^T<=20000); probability vectors are integer weights over a denominator (weights zero with probability ~1/4, uniform and one-hot rows, duplicated rows, slack>0 = sub-stochastic, all-zero rows allowed); models discrete_emission and discrete_emission_opt_end with end=None, with free explicit end probabilities, and with end = 1 - transition row sum; three constructors; impossible sequences forced in ~10% (no emitter, zero init, zero end, zero transitions). exhaustive: all 2-state 2-symbol models with weights in {0,1}, end absent / in {0,1/4,1/2}^2, all observation sequences up to length 3 (thorough 4). Oracle: enumeration of all S^T paths in f64 (joint = init*prod trans*prod emit*end(last) when end probabilities are explicit): viterbi value = joint of its path = max joint (rel 1e-9), forward = backward = path sum (rel 1e-3), likelihood >= viterbi*(1-1e-3), impossible => exactly ln(0) from all three, never NaN/+inf/panic. Non-trivial = S>=2, T>=2 and at least two paths of positive probability; distinct = distinct serialised case. LARGE-SCALE (C14/large-*): cases are {model kind, S, M, T, flavor, constructor, observation kind, seed}, expanded deterministically by splitmix64; deterministic ladders push S (255..257, 511..513, 1023..1025, 2047..2049, 4095..4097), M and T (every rung 255..257 .. 2^20-1..2^20+1 and 70000) across the thresholds, a random sub-check varies sizes around the rungs; model kinds: dyadic (all probabilities powers of two: maximality of the Viterbi path decided EXACTLY by an integer shortest path), dense, deterministic cycle (one possible path: path, probability and likelihood known in closed form, forward/backward within rounding), left-to-right, block-diagonal; impossible symbols forced at positions beyond 255/65535. Oracle there: textbook reference in plain f64/std ln (Viterbi max-sum, scaled forward and backward), compared in LOG space (viterbi: 1e-9 relative / rounding; forward/backward: (T+1)*1e-5, the fast-exponential error of one log-sum-exp per column); the reference is cross-validated against the path enumeration on every case with S^T <= 20000 (C14/large-crosscheck: the large check at small sizes; C14/large-reference-vs-enumeration: on the cases of the C14/random generator). Non-trivial there = possible sequence with a size >= 255 (or S,T >= 2 in the cross-checks).",
         assumptions: &[
             "observation symbols are < M (larger symbols index out of the emission matrix: outside the model)",
             "every probability is in [0,1] and every probability vector sums to at most 1 (sub-stochastic allowed); end probabilities are individual probabilities in [0,1] per state",
             "S^T <= 4096 (quick) so that the path enumeration is the oracle",
+            "large-scale sub-checks: S*S <= 40 million and S*M <= 40 million matrix entries (S <= 4097, M <= 2^20+1 with S <= 4), T <= 2^20+1; beyond the enumeration the oracle is the f64 reference (cross-validated against the enumeration on the small cases of the same run)",
+            "large-scale forward/backward tolerance (T+1)*1e-5 in log space = documented relative error of the fast exponential (8.9e-6) per log-sum-exp, accumulated over T columns",
         ],
         subs: vec![
             Box::new(PropSub {
@@ -631,6 +1655,14 @@ pub fn property() -> Property {
                 watch: false,
             }),
             Box::new(ExhSub { name: "C14/exhaustive-2x2", enumerate, check, must_reach: &["impossible sequence", "explicit end probabilities", "tie (>=2 maximal paths)"] }),
+            // ---- large-scale sub-checks (threshold ladders for S, M, T)
+            Box::new(ExhSub { name: "C14/large-states", enumerate: large::enumerate_states, check: large::check, must_reach: &["S in 255..257", "S in 511..513", "S in 1023..1025", "S in 2047..2049", "S >= 255 and T >= 255 together", "viterbi path visits a state >= 256", "viterbi path visits a state >= 1024", "maximality decided exactly (dyadic model, integer shortest path)", "one possible path (analytic answer, likelihood within rounding)", "impossible sequence", "dyadic model", "dense model", "cycle model", "left-to-right model", "block-diagonal model", "explicit end probabilities", "plain model", "opt_end model, end=None", "ctor with_float", "ctor with_prob", "ctor new(LogProb)"] }),
+            Box::new(ExhSub { name: "C14/large-states-4096", enumerate: large::enumerate_states_4096, check: large::check, must_reach: &["S in 4095..4097", "viterbi path visits a state >= 1024"] }),
+            Box::new(ExhSub { name: "C14/large-symbols", enumerate: large::enumerate_symbols, check: large::check, must_reach: &["M in 255..257", "M in 511..513", "M in 1023..1025", "M in 4095..4097", "M in 8191..8193", "M in 16383..16385", "M in 32767..32769", "M in 65535..65537", "M in 131071..131073", "M in 2^19-1..2^19+1", "M in 2^20-1..2^20+1", "M ~70000", "observed symbol >= 256", "observed symbol >= 65536", "largest symbol observed", "impossible sequence", "maximality decided exactly (dyadic model, integer shortest path)"] }),
+            Box::new(ExhSub { name: "C14/large-length", enumerate: large::enumerate_length, check: large::check, must_reach: &["T in 255..257", "T in 511..513", "T in 1023..1025", "T in 4095..4097", "T in 8191..8193", "T in 16383..16385", "T in 32767..32769", "T in 65535..65537", "T in 131071..131073", "T in 2^19-1..2^19+1", "T in 2^20-1..2^20+1", "T ~70000", "impossible because of a symbol at position >= 255", "impossible because of a symbol at position >= 65535", "maximality decided exactly (dyadic model, integer shortest path)", "one possible path (analytic answer, likelihood within rounding)", "dyadic model", "dense model", "cycle model", "left-to-right model", "block-diagonal model"] }),
+            Box::new(PropSub { name: "C14/large-random", quick: 96, thorough: 1600, shards_quick: 16, shards_thorough: 16, strat: large::strat, check: large::check, must_reach: &["beyond the reach of the path enumeration", "viterbi path visits a state >= 256", "observed symbol >= 256"], watch: true }),
+            Box::new(PropSub { name: "C14/large-crosscheck", quick: 48_000, thorough: 480_000, shards_quick: 8, shards_thorough: 16, strat: large::strat_small, check: large::check, must_reach: &["reference cross-validated against the path enumeration", "impossible sequence", "maximality decided exactly (dyadic model, integer shortest path)", "one possible path (analytic answer, likelihood within rounding)", "dyadic model", "dense model", "cycle model", "left-to-right model", "block-diagonal model", "explicit end probabilities", "plain model", "opt_end model, end=None", "ctor with_float", "ctor with_prob", "ctor new(LogProb)"], watch: false }),
+            Box::new(PropSub { name: "C14/large-reference-vs-enumeration", quick: 48_000, thorough: 480_000, shards_quick: 8, shards_thorough: 16, strat, check: large::check_reference, must_reach: &["reference cross-validated against the path enumeration", "impossible sequence", "explicit end probabilities"], watch: false }),
         ],
     }
 }
